@@ -11,6 +11,7 @@ fresh subprocesses for all length-2 histories of the on-disk configurations."""
 
 import itertools
 import json
+import math
 import os
 import shutil
 import subprocess
@@ -114,6 +115,10 @@ KINDS = {
                      dict(methods=["greedy"], max_repeats=2, optlib="random",
                           parallel=False,
                           slicing_opts={"target_slices": 2})),
+    # a non-default objective: hits must be trees scored as stored
+    "hyper-size": ("ReusableHyperOptimizer",
+                   dict(methods=["greedy"], max_repeats=2, optlib="random",
+                        parallel=False, minimize="size")),
     "rgreedy": ("ReusableRandomGreedyOptimizer",
                 dict(max_repeats=2, seed=0, accel=False, parallel=False)),
 }
@@ -229,6 +234,17 @@ def check_tree(tree, q):
     return bad
 
 
+def score_of(tree, kind="hyper"):
+    """the figure the optimizer stores: the objective's score for the hyper
+    kinds, log10(total flops) for the random-greedy one"""
+    try:
+        if kind == "rgreedy":
+            return math.log10(tree.total_flops())
+        return float(tree.get_score())
+    except Exception:
+        return None
+
+
 def run_history(cfg, hist, P, root, res):
     """hist: tuple of events, ('q', name) or ('reload',).  Returns list of
     problems (each a tuple starting with a class string)."""
@@ -269,6 +285,11 @@ def run_history(cfg, hist, P, root, res):
         if not searched and tuple(map(tuple, tree.get_path())) != \
                 tuple(map(tuple, after["path"])):
             bad.append(("hit-path-differs-from-stored", name, step))
+        # ... and is scored (under the optimizer's objective) as stored
+        sc = score_of(tree, w.kind)
+        if sc is not None and abs(sc - after["score"]) > 1e-9:
+            bad.append(("tree-score-differs-from-stored", name, step, sc,
+                        after["score"], "searched" if searched else "hit"))
         # hit / miss behaviour against the model
         if before is not None:
             hits += 1
@@ -315,6 +336,10 @@ def run_history(cfg, hist, P, root, res):
                 t2 = ro.search(*q)
                 for b in check_tree(t2, q):
                     bad.append(("cache_only:" + b, name, step))
+                sc2 = score_of(t2, w.kind)
+                if sc2 is not None and abs(sc2 - after["score"]) > 1e-9:
+                    bad.append(("cache_only:tree-score-differs-from-stored",
+                                name, step, sc2, after["score"]))
             except KeyError as e:
                 if ro_ow is False:
                     bad.append(("cache_only-fails-on-stored:KeyError", name,
